@@ -18,6 +18,11 @@ type C12Case struct {
 	// Inputs2, when present, is a second input vector evaluated afterwards on the same solver instances without a
 	// flush in between: in a feed-forward network the outputs after enough steps depend on the loaded inputs only
 	Inputs2 []float64 `json:"inputs2,omitempty"`
+	// Flush2: the instances are flushed between the two vectors
+	Flush2 bool `json:"flush_between,omitempty"`
+	// PriorCap > 0: every network instance is first asked for its depth under this cap (below the real depth, so the
+	// query gives up with the depth-exceeded error) - a read-only query that must not influence later evaluations
+	PriorCap int `json:"prior_capped_depth_query,omitempty"`
 }
 
 func GenC12() *rapid.Generator[C12Case] {
@@ -30,9 +35,18 @@ func GenC12() *rapid.Generator[C12Case] {
 				rapid.SampledFrom([]float64{0, 1, -1, 1e-3, -1e-3, 50, -50, 0.5})).Draw(t, "input"))
 		}
 		if rapid.Bool().Draw(t, "second vector") {
+			zeros := rapid.IntRange(0, 4).Draw(t, "second vector all zeros") == 0
 			for i := 0; i < nIn; i++ {
-				c.Inputs2 = append(c.Inputs2, rapid.OneOf(rapid.Float64Range(-3, 3), rapid.SampledFrom([]float64{0, 1, -1, 0.5, 2})).Draw(t, "input2"))
+				v := rapid.OneOf(rapid.Float64Range(-3, 3), rapid.SampledFrom([]float64{0, 1, -1, 0.5, 2})).Draw(t, "input2")
+				if zeros {
+					v = 0
+				}
+				c.Inputs2 = append(c.Inputs2, v)
 			}
+			c.Flush2 = rapid.Bool().Draw(t, "flush between")
+		}
+		if d, _ := c.Net.longestPathToOutputs(); d >= 2 && rapid.IntRange(0, 3).Draw(t, "prior capped query") == 0 {
+			c.PriorCap = rapid.IntRange(1, d-1).Draw(t, "prior cap")
 		}
 		return c
 	})
@@ -104,7 +118,15 @@ func CheckC12(c C12Case, rec *Rec) error {
 		steps = 1
 	}
 
-	fresh := func() (*network.Network, error) { return c.Net.Build() }
+	fresh := func() (*network.Network, error) {
+		n, err := c.Net.Build()
+		if err == nil && c.PriorCap > 0 {
+			if _, qerr := n.MaxActivationDepthWithCap(c.PriorCap); qerr != nil {
+				rec.Class("network was asked for its depth under a cap it exceeds before the evaluation")
+			}
+		}
+		return n, err
+	}
 	// 1. the standard solver
 	net, err := fresh()
 	if err != nil {
@@ -126,7 +148,15 @@ func CheckC12(c C12Case, rec *Rec) error {
 			rec.Class("second input vector on the same instances")
 		}
 	}
+	if ref2 != nil && c.Flush2 {
+		rec.Class("flushed between the two vectors")
+	}
 	if ref2 != nil {
+		if c.Flush2 {
+			if _, err = net.Flush(); err != nil {
+				return fmt.Errorf("Network.Flush: %v", err)
+			}
+		}
 		if err = net.LoadSensors(c.Inputs2); err != nil {
 			return fmt.Errorf("Network.LoadSensors (second vector): %v", err)
 		}
@@ -148,6 +178,11 @@ func CheckC12(c C12Case, rec *Rec) error {
 			return err
 		}
 		if ref2 != nil {
+			if c.Flush2 {
+				if _, err = net.Flush(); err != nil {
+					return fmt.Errorf("Network.Flush: %v", err)
+				}
+			}
 			_ = net.LoadSensors(c.Inputs2)
 			if _, err = net.RecursiveSteps(); err != nil {
 				return fmt.Errorf("Network.RecursiveSteps (second vector): %v", err)
@@ -193,6 +228,11 @@ func CheckC12(c C12Case, rec *Rec) error {
 			return err
 		}
 		if ref2 != nil {
+			if c.Flush2 {
+				if _, err = solver.Flush(); err != nil {
+					return fmt.Errorf("fast Flush: %v", err)
+				}
+			}
 			if err = solver.LoadSensors(c.Inputs2); err != nil {
 				return fmt.Errorf("fast LoadSensors (second vector): %v", err)
 			}
